@@ -2,6 +2,7 @@ mod expmodels;
 mod c08;
 mod export;
 mod fittrace;
+mod history;
 mod lattice;
 mod mbuilder;
 mod pbuilder;
@@ -12,6 +13,28 @@ mod sc;
 mod stationary;
 mod vmodel;
 
+/// Global allocator that fills every fresh allocation with a poison pattern (VPH_POISON=1|2),
+/// so that a returned matrix element that was never written shows up as garbage (C10).
+struct Poison;
+static POISON_MODE: std::sync::atomic::AtomicU8 = std::sync::atomic::AtomicU8::new(0);
+unsafe impl std::alloc::GlobalAlloc for Poison {
+    unsafe fn alloc(&self, layout: std::alloc::Layout) -> *mut u8 {
+        let p = std::alloc::System.alloc(layout);
+        let mode = POISON_MODE.load(std::sync::atomic::Ordering::Relaxed);
+        if !p.is_null() && mode != 0 {
+            // pattern 1: 0x5A bytes (a huge finite number as f64/f32); pattern 2: 0xFF bytes (NaN)
+            let byte = if mode == 1 { 0x5A } else { 0xFF };
+            std::ptr::write_bytes(p, byte, layout.size());
+        }
+        p
+    }
+    unsafe fn dealloc(&self, ptr: *mut u8, layout: std::alloc::Layout) {
+        std::alloc::System.dealloc(ptr, layout)
+    }
+}
+#[global_allocator]
+static GLOBAL: Poison = Poison;
+
 fn arg_after(args: &[String], key: &str) -> Option<String> {
     args.iter().position(|a| a == key).and_then(|i| args.get(i + 1).cloned())
 }
@@ -21,6 +44,9 @@ fn main() {
     if args.len() < 2 {
         eprintln!("usage: vph <subcommand> ...");
         std::process::exit(2);
+    }
+    if let Ok(m) = std::env::var("VPH_POISON") {
+        POISON_MODE.store(m.parse().unwrap_or(0), std::sync::atomic::Ordering::Relaxed);
     }
     // panics inside code under test are data; keep the default hook quiet
     std::panic::set_hook(Box::new(|_| {}));
@@ -53,6 +79,7 @@ fn main() {
             let timeout: u64 = args.get(5).map(|s| s.parse().unwrap()).unwrap_or(20);
             c08::run(path, stride, fits, timeout)
         }
+        "history" => history::run(args.get(2).expect("export file")),
         "stationary" => stationary::run(args.get(2).expect("export file")),
         "model" => vmodel::run(args.get(2).expect("export file")),
         "pbuilder" => pbuilder::run(args.get(2).expect("export file")),
